@@ -930,6 +930,7 @@ func (c *Check) coinsSubSites(fs []*Func) {
 func (c *Check) nilMapWrites(fs []*Func) {
 	n := 0
 	var exprNonNil func(g *Func, e ast.Expr, depth int) (bool, string)
+	fieldDepth := 0
 	// every value ever given to the variable inside the outermost enclosing function is make / a composite literal
 	varMade := func(g *Func, v *types.Var) (bool, string) {
 		top := g
@@ -987,15 +988,15 @@ func (c *Check) nilMapWrites(fs []*Func) {
 			info := g.Pkg.TypesInfo
 			judge := func(r ast.Expr) {
 				found = true
-				switch x := ast.Unparen(r).(type) {
-				case *ast.CompositeLit:
-				case *ast.CallExpr:
-					if id, isId := x.Fun.(*ast.Ident); !isId || id.Name != "make" {
-						ok, why = false, "field "+fv.Name()+" is given "+types.ExprString(r)+" in "+g.Name
-					}
-				default:
-					ok, why = false, "field "+fv.Name()+" is given "+types.ExprString(r)+" in "+g.Name
+				if fieldDepth > 3 {
+					ok, why = false, "field "+fv.Name()+": value chain too deep"
+					return
 				}
+				fieldDepth++
+				if ok2, why2 := exprNonNil(g, r, 1); !ok2 {
+					ok, why = false, "field "+fv.Name()+" is given "+why2+" in "+g.Name
+				}
+				fieldDepth--
 			}
 			ast.Inspect(g.Body, func(m ast.Node) bool {
 				switch s := m.(type) {
